@@ -1,7 +1,9 @@
 use crate::asn::{Charset, Range, Size};
+use crate::generate::walker::AsnDefWriter;
 use crate::model::{Definition, Model, Target};
 use crate::rust::{
-    rust_module_name, rust_struct_or_enum_name, rust_variant_name, EncodingOrdering, Rust, RustType,
+    rust_module_name, rust_struct_or_enum_name, rust_variant_name, EncodingOrdering, Field, Rust,
+    RustType,
 };
 use std::convert::Infallible;
 
@@ -138,13 +140,34 @@ impl Model<Protobuf> {
     pub fn definition_to_protobuf(rust: &Rust) -> Protobuf {
         match rust {
             Rust::Struct {
-                fields,
+                fields: fields_in_order,
                 tag: _,
-                extension_after: _,
-                ordering: _,
+                extension_after,
+                ordering,
             } => {
+                let tagged;
+                let mut fields = fields_in_order.iter().collect::<Vec<_>>();
+                if matches!(ordering, EncodingOrdering::Sort) {
+                    // The fields of a SET are visited - and thus numbered by the protobuf
+                    // reader and writer - in canonical order, see AsnDefWriter
+                    tagged = AsnDefWriter::assign_implicit_tags(&fields_in_order[..]);
+                    fields = tagged.iter().collect();
+                    let tag_of = |f: &Field| f.tag.or_else(|| f.r#type().tag());
+                    if fields.iter().all(|f| tag_of(f).is_some()) {
+                        let mut sorted = fields
+                            .iter()
+                            .enumerate()
+                            .map(|(index, field)| {
+                                let extended = extension_after.map_or(false, |after| index > after);
+                                (extended, tag_of(field), *field)
+                            })
+                            .collect::<Vec<_>>();
+                        sorted.sort_by(|a, b| (a.0, &a.1).cmp(&(b.0, &b.1)));
+                        fields = sorted.into_iter().map(|(_, _, field)| field).collect();
+                    }
+                }
                 let mut proto_fields = Vec::with_capacity(fields.len());
-                for field in fields.iter() {
+                for field in fields {
                     proto_fields.push((
                         proto_field_name(field.name()),
                         Self::definition_type_to_protobuf_type(field.r#type()),
